@@ -23,12 +23,13 @@ import (
 
 // INTERCEPT: k8s.io/apimachinery/pkg/apis/meta/v1.LabelSelectorAsSelector => verifModelSelector
 
-// ASSUME: label selectors use matchLabels only: under the engine LabelSelectorAsSelector is replaced by a harness model with the same semantics for such selectors (the real one validates label syntax with regular expressions compiled at package initialisation); native replays use the real function
+// ASSUME: under the engine LabelSelectorAsSelector is replaced by a harness model with the semantics of matchLabels and of matchExpressions with the operators In / NotIn / Exists / DoesNotExist for syntactically valid selectors (the real one validates label syntax with regular expressions compiled at package initialisation); native replays use the real function
 // ASSUME: kernel ipset / iptables are the repository's in-memory fakes
 
 // ---- selector model
 type vSelector struct {
 	match   map[string]string
+	exprs   []metav1.LabelSelectorRequirement
 	nothing bool
 }
 
@@ -41,9 +42,37 @@ func (s vSelector) Matches(ls labels.Labels) bool {
 			return false
 		}
 	}
+	for _, e := range s.exprs {
+		in := false
+		for _, v := range e.Values {
+			if ls.Has(e.Key) && ls.Get(e.Key) == v {
+				in = true
+			}
+		}
+		switch e.Operator {
+		case metav1.LabelSelectorOpIn:
+			if !in {
+				return false
+			}
+		case metav1.LabelSelectorOpNotIn:
+			if in {
+				return false
+			}
+		case metav1.LabelSelectorOpExists:
+			if !ls.Has(e.Key) {
+				return false
+			}
+		case metav1.LabelSelectorOpDoesNotExist:
+			if ls.Has(e.Key) {
+				return false
+			}
+		default:
+			panic("harness: unknown selector operator")
+		}
+	}
 	return true
 }
-func (s vSelector) Empty() bool                                   { return !s.nothing && len(s.match) == 0 }
+func (s vSelector) Empty() bool                                   { return !s.nothing && len(s.match) == 0 && len(s.exprs) == 0 }
 func (s vSelector) String() string                                { return "vSelector" }
 func (s vSelector) Add(r ...labels.Requirement) labels.Selector   { return s }
 func (s vSelector) Requirements() (labels.Requirements, bool)     { return nil, !s.nothing }
@@ -54,10 +83,7 @@ func verifModelSelector(ps *metav1.LabelSelector) (labels.Selector, error) {
 	if ps == nil {
 		return vSelector{nothing: true}, nil
 	}
-	if len(ps.MatchExpressions) > 0 {
-		panic("harness: matchExpressions are outside the selector model")
-	}
-	return vSelector{match: ps.MatchLabels}, nil
+	return vSelector{match: ps.MatchLabels, exprs: ps.MatchExpressions}, nil
 }
 
 // ---- cluster state
